@@ -420,9 +420,9 @@ theorem step_credit (cr : Credit) (c : Cur) (r : Rd) (op : ROp) (habs : Abs c r)
           have := (ha.short hgt).2
           omega
       simp [Rd.step, hn, liveOk, this]
-    | release =>
+    | release e =>
       have hf := release_frame r
-      have : cr.after c .release = cr := by simp [Credit.after, ROp.req]
+      have : cr.after c (.release e) = cr := by simp [Credit.after, ROp.req]
       rw [this]
       exact ⟨by simpa [Rd.step] using hJ.frame hf.1 hf.2, fun _ => by simp [liveOk]⟩
     | readLen =>
